@@ -427,6 +427,10 @@ def container_method(ex, recv: VRef, name, args, kwargs, st):
         if name in ("discard",):
             st.dict_store(r, z3.Store(st.dict_dom(r), z_int(args[0]), z3.BoolVal(False)), st.dict_vals(r))
             return [Res("val", None, st)]
+        if name == "copy" and not args:
+            c = st.new_object("set_copy")
+            st.dict_store(c, st.dict_dom(r), st.dict_vals(r))
+            return [Res("val", VRef(c, "set", recv.kinds), st)]
     raise Unsupported(f"{k}.{name}")
 
 
@@ -557,9 +561,17 @@ def b_list(ex, st, args, kw):
 
 
 def b_set(ex, st, args, kw):
-    """set(): a fresh empty set object."""
+    """set() / set(sequence): a fresh set object (with the elements of the sequence)."""
     if args:
-        raise Unsupported("set(iterable)")
+        h = ex.spec.globals.get("__set_of__")
+        dom = h(ex, st, args[0]) if h is not None else None
+        if dom is None:
+            sq = arith.as_seq(ex.to_seq_value(args[0], st))
+            x, j = z3.Int("x!set"), z3.Int("j!set")
+            dom = z3.Lambda([x], z3.Exists([j], z3.And(j >= 0, j < sq.n, z3.Select(sq.arr, j) == x)))
+        r = st.new_object("set")
+        st.dict_store(r, dom, z3.K(z3.IntSort(), z3.IntVal(0)))
+        return [Res("val", VRef(r, "set", ("set", "ref")), st)]
     r = st.new_object("set")
     st.dict_store(r, z3.K(z3.IntSort(), z3.BoolVal(False)), z3.K(z3.IntSort(), z3.IntVal(0)))
     return [Res("val", VRef(r, "set", ("set", "ref")), st)]
